@@ -72,8 +72,6 @@ func WithListenAddr(addr string) Option { return func(s *Server) { s.listenAddr 
 
 // Server is one fake Milvus instance.
 type Server struct {
-	milvuspb.UnimplementedMilvusServiceServer
-
 	listenAddr string
 	lis        net.Listener
 	addr       string
@@ -120,6 +118,13 @@ type Server struct {
 	identifier atomic.Int64
 }
 
+// svc carries the gRPC methods (kept off Server so that Server's exported API stays the test-facing one).
+// Methods not implemented here answer codes.Unimplemented, but are still logged and subject to faults.
+type svc struct {
+	milvuspb.UnimplementedMilvusServiceServer
+	*Server
+}
+
 // Start starts a fake Milvus on a loopback TCP port.
 func Start(opts ...Option) (*Server, error) {
 	s := &Server{
@@ -156,7 +161,7 @@ func Start(opts ...Option) (*Server, error) {
 		grpc.KeepaliveEnforcementPolicy(keepalive.EnforcementPolicy{MinTime: time.Second, PermitWithoutStream: true}),
 		grpc.UnaryInterceptor(s.intercept),
 	)
-	milvuspb.RegisterMilvusServiceServer(s.grpcSrv, s)
+	milvuspb.RegisterMilvusServiceServer(s.grpcSrv, &svc{Server: s})
 	go func() {
 		defer close(s.serveDone)
 		_ = s.grpcSrv.Serve(lis)
@@ -493,6 +498,10 @@ type planEntry struct {
 // form: a gRPC status error (status.Error(...)) is returned at transport level; a *StatusError gives exactly
 // that application-level status; a Milvus merr error gives merr.Status(err); any other error gives an
 // application-level UnexpectedError status with err.Error() as reason. The plan is consulted before the hook.
+//
+// Every attempt that reaches the server is one call and uses up one unit of n. The SDK itself re-sends a call
+// answered with codes.Unavailable / codes.ResourceExhausted (6 attempts) or with ErrorCode_RateLimit (75
+// attempts), and MilvusDataHandler re-sends according to its retry settings; Connect is a method like any other.
 func (s *Server) FailNext(method string, n int, err error) {
 	s.planNext(method, n, FailWith(err))
 }
